@@ -15,8 +15,10 @@ Oracle (DESIGN.md C18):
 """
 from __future__ import annotations
 
+import dataclasses
 import enum
 import itertools
+import typing
 from decimal import Decimal
 
 from vkit import env, runner
@@ -221,7 +223,38 @@ def st_case(draw):
         prov["allow_compound"] = draw(st.booleans())
     if kind == "by_value":
         prov["tp"] = draw(st.sampled_from(["auto", "auto", "int", "str", "Decimal"]))
+    # the provider may be bound by several predicates at once (the class under test first, in the middle or last)
+    prov["multi"] = draw(st.sampled_from([None, None, 0, 1, 2]))
+    if kind == "exact" and prov["multi"] is not None:
+        prov["explicit"] = True
     return {"cls": spec, "prov": prov, "strict": draw(st.booleans()), "debug": draw(st.integers(0, 2))}
+
+
+class _OtherEnumA(enum.Enum):
+    P = "p"
+
+
+class _OtherEnumB(enum.Enum):
+    Q = 7
+
+
+class _OtherFlagA(enum.Flag):
+    P = 1
+
+
+class _OtherFlagB(enum.Flag):
+    Q = 1
+    R = 2
+
+
+def _preds(cls, prov):
+    """The predicates the provider is bound by: the class alone, or together with two unrelated classes."""
+    pos = prov.get("multi")
+    if pos is None:
+        return [cls]
+    others = [_OtherFlagA, _OtherFlagB] if issubclass(cls, enum.Flag) else [_OtherEnumA, _OtherEnumB]
+    others.insert(pos, cls)
+    return others
 
 
 # ----------------------------------------------------------------------------------- provider + reference
@@ -270,10 +303,11 @@ class MapKeysCollide(Exception):
 
 def make_provider(cls, prov):
     k = prov["kind"]
+    preds = _preds(cls, prov)
     if k == "exact":
-        return enum_by_exact_value(cls) if prov.get("explicit", True) else None
+        return enum_by_exact_value(*preds) if prov.get("explicit", True) else None
     if k == "flag_exact":
-        return flag_by_exact_value(cls)
+        return flag_by_exact_value(*preds)
     if k in ("by_name", "flag_names"):
         style = NameStyle[prov["name_style"]] if prov.get("name_style") else None
         nmap = {}
@@ -284,13 +318,13 @@ def make_provider(cls, prov):
             # entry before adaptix ever sees the mapping -- not a configuration adaptix can honour
             raise MapKeysCollide
         if k == "by_name":
-            return enum_by_name(cls, name_style=style, map=nmap or None)
+            return enum_by_name(*preds, name_style=style, map=nmap or None)
         return flag_by_member_names(
-            cls, allow_single_value=prov["allow_single_value"], allow_duplicates=prov["allow_duplicates"],
+            *preds, allow_single_value=prov["allow_single_value"], allow_duplicates=prov["allow_duplicates"],
             allow_compound=prov["allow_compound"], name_style=style, map=nmap or None,
         )
     if k == "by_value":
-        return enum_by_value(cls, tp=_value_tp(cls, prov))
+        return enum_by_value(*preds, tp=_value_tp(cls, prov))
     raise ValueError(k)
 
 
@@ -523,6 +557,30 @@ def check_case(ctx: runner.Ctx, case):  # noqa: C901, PLR0912, PLR0915
         if not ok:
             viol("roundtrip_differs", ("+".join(sorted(feats)) or "plain",),
                  f"value={v!r} dumped={d!r} loaded={back!r}")
+    # ---- the same representation inside Optional / List / Dict / a model field (falsy members are the interesting ones:
+    # Flag(0), a member with value 0 or '')
+    falsy_first = sorted(dumped, key=lambda vd: bool(vd[0].value))[:6]
+    if falsy_first:
+        holder = dataclasses.make_dataclass(f"H_{cls.__name__}", [("f", typing.Optional[cls]), ("g", typing.List[cls])])
+        for v, d in falsy_first:
+            if d is None:
+                ctx.count("skipped_member_dumped_as_None_inside_Optional")   # overlaps with the None case of the Optional
+                continue
+            for label, tp, val, exp in (
+                ("optional", typing.Optional[cls], v, d), ("list", typing.List[cls], [v, v], [d, d]),
+                ("dict", typing.Dict[str, cls], {"k": v}, {"k": d}), ("model", holder, holder(v, [v]), {"f": d, "g": [d]}),
+            ):
+                try:
+                    got = retort.dump(val, tp)
+                    back = retort.load(got, tp)
+                except Exception as e:  # noqa: BLE001
+                    viol("wrapped_roundtrip_failed", (label, type(e).__name__), f"value={v!r} in {label}: {describe(e)}")
+                    continue
+                if repr(got) != repr(exp):
+                    viol("wrapped_dump_form", (label, "falsy" if not v.value else "truthy"),
+                         f"value={v!r} in {label}: dumped {got!r}, the bare dumper gives {d!r}")
+                if back != val:
+                    viol("wrapped_roundtrip_differs", (label,), f"value={v!r} in {label}: loaded {back!r}")
     # injectivity
     for (v1, d1), (v2, d2) in itertools.combinations(dumped, 2):
         same = (sorted(map(repr, d1)) == sorted(map(repr, d2))) if kind == "flag_names" and isinstance(d1, list) \
@@ -547,6 +605,12 @@ def check_case(ctx: runner.Ctx, case):  # noqa: C901, PLR0912, PLR0915
             cands.append({x: 1 for x in d})
         if isinstance(d, int) and not isinstance(d, bool):
             cands.extend([d + 1, -d - 1, float(d), str(d), d + 2 ** 20])
+    if kind == "flag_exact":
+        top = 0
+        for _, m in named:
+            top |= m.value
+        if 0 <= top < 64:
+            cands.extend(range(top + 2))   # every value of the range, also those holding a bit no single member declares
     if kind == "flag_names":
         for n, m in named:
             cands.append([mp[n]])
@@ -562,6 +626,13 @@ def check_case(ctx: runner.Ctx, case):  # noqa: C901, PLR0912, PLR0915
                                       usable if kind in ("by_name", "flag_names") else None, spec)
         ctx.count(f"candidates_{verdict}")
         if verdict == "unspecified":
+            # nothing is claimed about acceptance, but whatever the loader does it must not leak a foreign exception
+            try:
+                loader(cand)
+            except LoadError:
+                pass
+            except Exception as e:  # noqa: BLE001
+                viol("non_loaderror", (type(e).__name__, exc_site(e)), f"candidate={cand!r}: {describe(e)}")
             continue
         try:
             got = loader(cand)
